@@ -331,11 +331,12 @@ func (rc *rawClient) close() {
 // ---- server fixture ----------------------------------------------------------------------------
 
 type ownerHandler struct {
-	stream     *gortsplib.ServerStream
-	recv       *pktLog // what the server read from a publisher
-	writeErrs  atomic.Int64
-	sessClosed atomic.Int64
-	sess       atomic.Pointer[gortsplib.ServerSession]
+	stream       *gortsplib.ServerStream
+	recv         *pktLog // what the server read from a publisher
+	writeErrs    atomic.Int64
+	sessClosed   atomic.Int64
+	sess         atomic.Pointer[gortsplib.ServerSession]
+	lastWriteErr atomic.Pointer[error]
 }
 
 func okRes() *base.Response { return &base.Response{StatusCode: base.StatusOK} }
@@ -357,6 +358,8 @@ func (h *ownerHandler) OnSetup(ctx *gortsplib.ServerHandlerOnSetupCtx) (*base.Re
 
 func (h *ownerHandler) OnPlay(ctx *gortsplib.ServerHandlerOnPlayCtx) (*base.Response, error) {
 	ctx.Session.OnPacketRTCPAny(func(_ *description.Media, pkt rtcp.Packet) { h.recv.addRTCPPacket(pkt) })
+	ctx.Session.OnPacketRTPAny(func(_ *description.Media, _ format.Format, pkt *rtp.Packet) { h.recv.addRTP(pkt.SequenceNumber) })
+	h.sess.Store(ctx.Session)
 	return okRes(), nil
 }
 
@@ -372,7 +375,8 @@ func (h *ownerHandler) OnPause(*gortsplib.ServerHandlerOnPauseCtx) (*base.Respon
 	return okRes(), nil
 }
 
-func (h *ownerHandler) OnStreamWriteError(*gortsplib.ServerHandlerOnStreamWriteErrorCtx) {
+func (h *ownerHandler) OnStreamWriteError(ctx *gortsplib.ServerHandlerOnStreamWriteErrorCtx) {
+	h.lastWriteErr.Store(&ctx.Error)
 	h.writeErrs.Add(1)
 }
 
@@ -387,6 +391,7 @@ type ownerServer struct {
 	h     *ownerHandler
 	addr  string
 	media *description.Media
+	back  *description.Media
 }
 
 func ownerMedia() *description.Media {
@@ -394,11 +399,19 @@ func ownerMedia() *description.Media {
 }
 
 func startOwnerServer(transport string, withStream bool) (*ownerServer, error) {
+	return startOwnerServerOpt(transport, withStream, 0, false)
+}
+
+// startOwnerServerOpt: writeQueue 0 = the library's default; backChannel adds an ONVIF back-channel
+// media to the stream.  Sender reports are off: they would travel through the queues under test.
+func startOwnerServerOpt(transport string, withStream bool, writeQueue int, backChannel bool) (*ownerServer, error) {
 	var lastErr error
 	for attempt := 0; attempt < 100; attempt++ {
 		h := &ownerHandler{recv: &pktLog{}}
-		s := &gortsplib.Server{Handler: h, RTSPAddress: "127.0.0.1:0"}
-		s.VerifSetReportPeriods(10*time.Second, 20*time.Millisecond)
+		s := &gortsplib.Server{Handler: h, RTSPAddress: "127.0.0.1:0", WriteQueueSize: writeQueue, DisableRTCPSenderReports: true}
+		if writeQueue == 0 {
+			s.VerifSetReportPeriods(10*time.Second, 20*time.Millisecond)
+		}
 		p := ownerPorts()
 		if transport == "udp" {
 			s.UDPRTPAddress = fmt.Sprintf("127.0.0.1:%d", p)
@@ -415,7 +428,13 @@ func startOwnerServer(transport string, withStream bool) (*ownerServer, error) {
 		}
 		o := &ownerServer{s: s, h: h, addr: s.NetListener().Addr().String(), media: ownerMedia()}
 		if withStream {
-			h.stream = &gortsplib.ServerStream{Server: s, Desc: &description.Session{Medias: []*description.Media{o.media}}}
+			medias := []*description.Media{o.media}
+			if backChannel {
+				o.back = &description.Media{Type: description.MediaTypeAudio, IsBackChannel: true,
+					Formats: []format.Format{&format.G711{PayloadTyp: 8, MULaw: false, SampleRate: 8000, ChannelCount: 1}}}
+				medias = append(medias, o.back)
+			}
+			h.stream = &gortsplib.ServerStream{Server: s, Desc: &description.Session{Medias: medias}}
 			if err := h.stream.Initialize(); err != nil {
 				s.Close()
 				return nil, err
